@@ -21,10 +21,12 @@ type ConcCall struct {
 type Conc struct {
 	Cfgs  []Cfg `json:"cfgs"`  // one configuration per instance
 	Sched []int `json:"sched"` // which instance issues the next statement (finished instances are skipped)
+	Crash []bool `json:"crash"` // instances that stop for good when the schedule ends (never drained)
 	// observations
 	Eff   []int      `json:"eff"`  // the instances in the order their statements were granted (schedule, then drain)
 	Log   []ConcCall `json:"log"`
 	Errs  []bool     `json:"errs"`
+	Done  []bool     `json:"done"` // the instance's Rotate returned
 	Panic string     `json:"panic,omitempty"`
 	State State      `json:"state"`
 }
@@ -45,7 +47,7 @@ type gated struct {
 }
 
 func (c *gated) turn(do func()) {
-	c.g.req[c.id] <- struct{}{}
+	c.g.req[c.id] <- struct{}{} // parked: the scheduler has seen the request
 	<-c.g.grant[c.id]
 	do()
 	*c.out = append(*c.out, ConcCall{Inst: c.id, Call: c.fake.log[len(c.fake.log)-1]})
@@ -92,26 +94,40 @@ func runConc(f *fake, cc *Conc) {
 		}()
 	}
 	finished := make([]bool, n)
-	stepOf := func(k int) {
-		if k < 0 || k >= n || finished[k] {
-			return
-		}
+	// an instance is always either parked before its next statement or finished when the scheduler looks at it
+	await := func(k int) {
 		select {
 		case <-g.req[k]:
-			cc.Eff = append(cc.Eff, k)
-			g.grant[k] <- struct{}{}
-			<-g.rel
 		case <-g.fin[k]:
 			finished[k] = true
 		}
 	}
+	for k := 0; k < n; k++ {
+		await(k)
+	}
+	stepOf := func(k int) {
+		if k < 0 || k >= n || finished[k] {
+			return
+		}
+		cc.Eff = append(cc.Eff, k)
+		g.grant[k] <- struct{}{}
+		<-g.rel
+		await(k)
+	}
 	for _, k := range cc.Sched {
 		stepOf(k)
 	}
-	for k := 0; k < n; k++ { // drain: the remaining instances one after the other
+	for k := 0; k < n; k++ { // drain: the remaining instances one after the other, except the crashed ones
+		if k < len(cc.Crash) && cc.Crash[k] {
+			continue
+		}
 		for !finished[k] {
 			stepOf(k)
 		}
+	}
+	cc.Done = finished
+	if cc.Crash == nil {
+		cc.Crash = make([]bool, n)
 	}
 	for _, p := range pn {
 		if p != "" {
@@ -164,6 +180,17 @@ func genConc(r *rand.Rand, id int) Case {
 		cc.Cfgs[r.Intn(n)] = mutateCfg(r, b)
 	}
 	cc.Sched = genSched(r, n)
+	cc.Crash = make([]bool, n)
+	if r.Intn(3) == 0 { // some instances die where the schedule leaves them; later runs complete the work
+		c.Class += "+crash"
+		for i := 0; i < n; i++ {
+			cc.Crash[i] = r.Intn(2) == 0
+		}
+	}
 	c.Conc = cc
+	last := cc.Cfgs[n-1]
+	for i, m := 0, r.Intn(3); i < m; i++ {
+		c.After = append(c.After, Run{Cfg: last})
+	}
 	return c
 }
